@@ -172,7 +172,8 @@ class CSSStyleRule(cssrule.CSSRule):
                     # SET, may raise:
                     newStyle.cssText = styletokens
 
-            if ok:
+            if ok and newSelectorList.wellformed and newSelectorList.length:
+                # (in logging mode a refused selector only made the list empty)
                 self.selectorList = newSelectorList
                 self.style = newStyle
 
